@@ -381,7 +381,8 @@ def main():
     threads = int(os.environ.get("VERIF_THREADS", "16"))
     runs = []
     seeds = [None] if tier == "quick" else [None, (seed % 1000) + 1]
-    verus_mods = modules if tier == "quick" else report["modules"] + ["model", "stdspec"]
+    # thorough: the whole crate - every source module, the ghost vocabulary, and the machine-generated lemma modules
+    verus_mods = modules if tier == "quick" else report["modules"] + ["model", "stdspec"] + list(report.get("generated_modules", []))
     per_fn = {}
     frontend_failed = None
     unsupported_in_contracted = []
